@@ -21,7 +21,7 @@ def main():
     tmp = tempfile.mkdtemp(prefix="verif-mut-")
     try:
         if a.full:
-            subprocess.run(["rsync", "-a", "--exclude", ".git", REPO + "/src", tmp + "/"], check=True)
+            subprocess.run(["rsync", "-a", "--exclude", ".git", REPO + "/src", REPO + "/include", tmp + "/"], check=True)
         else:
             os.makedirs(tmp + "/src/target", exist_ok=True)
             shutil.copytree(REPO + "/src/target/trx_toolkit", tmp + "/src/target/trx_toolkit")
